@@ -73,12 +73,19 @@ def generate(prng, tier, index):
     nkeys = prng.randrange(1, 6)
     keys, w = gen_dist(prng, ntop, nkeys)
     sizes = [prng.choice((1, 2, 2, 3, 3, 4, 5)) for _ in range(ntop)]
+    if prng.random() < 0.06:       # unusually large motif size / degrees / N (numeric edge cases)
+        sizes[prng.randrange(ntop)] = prng.choice((7, 16, 49, 64, 100, 128))
+        big = True
+    if prng.random() < 0.04:
+        keys = [[x * prng.choice((1, 1, 7, 40)) for x in k] for k in keys]
+        if len({tuple(k) for k in keys}) != len(keys):
+            keys, w = gen_dist(prng, ntop, nkeys)
     variant = "faults" if index % 4 == 3 else "clean"
     pol = prng.choice(({}, {"float": "extreme"}, {"float": "lo"}, {"float": "hi"}, {"float": "mix", "p": 0.4},
                        {"int": "min"}, {"int": "max"}, {"int": "sticky"}, {"int": "mix", "p": 0.5},
                        {"float": "mix", "int": "mix", "p": 0.3}))
     sc = {"variant": variant, "keys": keys, "weights": w, "sizes": sizes,
-          "N": prng.randrange(1, 61 if big else 16), "policy": pol, "via": prng.choice(("direct", "dispatch")),
+          "N": prng.randrange(1, 61 if big else 16) if prng.random() > 0.02 else prng.randrange(100, 400), "policy": pol, "via": prng.choice(("direct", "dispatch")),
           "samples": prng.choice((1, 1, 2, 3))}
     if variant == "faults":
         sc["abort_at"] = prng.randrange(0, sc["N"] + 4)
@@ -109,17 +116,23 @@ def explainable(entries, keyset, sizes):
         cands.append(c)
     if not odd:
         return True, ""
-    best = None
-    for combo in product(*cands):
-        D = [0] * ntop
-        for e, k in zip(odd, combo):
-            for i in range(ntop):
-                D[i] += e[i] - k[i]
-        if all(D[i] <= sizes[i] - 1 for i in range(ntop)):
-            return True, ""
-        if best is None or sum(D) < sum(best):
-            best = D
-    return False, f"cheapest explanation adds {best} stubs per topology, motif sizes {list(sizes)} allow at most size-1 each"
+    # reachable vectors D of added stubs after explaining the first j non-key entries, capped componentwise at
+    # size_i - 1 (anything above can never come back): at most prod(size_i) states, no matter how many entries
+    caps = [s - 1 for s in sizes]
+    reach = {tuple([0] * ntop)}
+    for e, cs in zip(odd, cands):
+        nxt = set()
+        for D in reach:
+            for k in cs:
+                D2 = tuple(D[i] + e[i] - k[i] for i in range(ntop))
+                if all(D2[i] <= caps[i] for i in range(ntop)):
+                    nxt.add(D2)
+        if not nxt:
+            cheapest = [sum(min(e[i] - k[i] for k in cs) for e, cs in zip(odd, cands)) for i in range(ntop)]
+            return False, (f"every explanation adds at least {cheapest} stubs per topology over the {len(odd)} non-key "
+                           f"entries, motif sizes {list(sizes)} allow at most size-1 each")
+        reach = nxt
+    return True, ""
 
 
 def check_sample(sc, ctx, res, jdd, jdd_before, obj, tag):
